@@ -5,14 +5,16 @@ import common
 def run(tier, replay=None):
     res = common.Result('C17', tier, 'exploration')
     exe = common.hbuild('h_codec', ['h_codec.cpp'], 'asan', need_reflect=True)
-    sh = common.Sharded(exe, lambda a, b: ['c17', common.seed(), a, b], 1, tag='c17', timeout=600).run()
+    sh = common.Sharded(exe, lambda a, b: ['c17', common.seed(), a, b], 1, env=common.san_env(dict(VERIF_TMP=common.scratch_dir())), tag='c17', timeout=600).run()
     common.absorb(res, sh)
     st = common.merge_stats(sh.stats)
-    res.evaluations = st.get('codes', 0) + st.get('ctor_checks', 0) + st.get('poison_constructions', 0)
+    res.evaluations = st.get('codes', 0) + st.get('ctor_checks', 0) + st.get('poison_constructions', 0) + st.get('file_round_trips', 0)
     res.distinct = st.get('codes', 0) + st.get('classes', 0)
     res.rule = ('all codes 0..255, boundary codes and 1000 random 32-bit codes through createObject vs the independent code->class '
                 'table; every reflected class: constructor code -> factory -> same class, encoding carries the code; each class '
-                'constructed in memory pre-filled with 00/FF/A5/5A, every reflected member and the encoding compared across patterns')
+                'constructed in memory pre-filled with 00/FF/A5/5A, every reflected member and the encoding compared across patterns; '
+                'every class default-constructed and every mapped code 0..255 written through File::write and read back through File::read '
+                '(same class and code, then the sentinel object, then the end)')
     res.exhaustive = True
     res.samples = st.get('samples', [])[:8]
     res.extra = {k: v for k, v in st.items() if k != 'samples'}
